@@ -193,6 +193,18 @@ func (l *c01Ledger) probe() *hermes.VerifProbe {
 			l.sumQD += g.QDRAIN
 			l.sumGW += w.GWAUF * wdt
 			l.c.Eval(1)
+			if g.QDRAIN > 0 {
+				l.c.Count("substeps_drain_flow", 1)
+			}
+			if g.Q1[N] < 0 {
+				l.c.Count("substeps_capillary_rise_or_upward", 1)
+			}
+			if tp > 0 {
+				l.c.Count("substeps_root_uptake", 1)
+			}
+			if w.GWAUF > 0 {
+				l.c.Count("substeps_groundwater_uptake", 1)
+			}
 			if g.QDRAIN != 0 || g.Q1[N] < 0 || tp > 0 || steps > 1 || g.EffectiveIRRIG > 0 {
 				l.dayNontrivial = true
 			}
